@@ -319,4 +319,58 @@ theorem outcomesG_eq (ops : FOps) (s : Schema) (l : List Op) : ∀ db, outcomesG
   | nil => intro db; rfl
   | cons op t ih => intro db; simp only [outcomesG, outcomes, stepG_eq, ih]
 
+/-! ### the whole public alphabet -/
+
+theorem tracksByPathG_ok (db : Db) (p : Bytes) : ∃ l, tracksByPathG Guards.source db p = .ok l := by
+  unfold tracksByPathG
+  cases findIdByPath db p with
+  | none => exact ⟨[], rfl⟩
+  | some i => exact ⟨[i], rfl⟩
+
+theorem callG_fst (ops : FOps) (s : Schema) (db : Db) (c : Call) :
+    (callG ops s db c).1 = match c with | .op o => (step ops s db o).1 | _ => db := by
+  cases c with
+  | op o => simp only [callG, callGW]; exact congrArg Prod.fst (stepG_eq ops s db o)
+  | _ => rfl
+
+theorem callG_defined (ops : FOps) (s : Schema) (db : Db) (hd : dbOk db = true) (c : Call) (u : Ub) :
+    (callG ops s db c).2 ≠ .ub u := by
+  cases c with
+  | op o =>
+    simp only [callG, callGW]
+    have h := stepG_defined ops s db hd o
+    unfold stepG at h
+    cases hr : (stepGW Guards.source ops s db o).2 with
+    | ok a => intro hh; cases hh
+    | throw e => intro hh; cases hh
+    | ub u' => exact absurd hr (h u')
+  | dbTracksByPath p =>
+    simp only [callG, callGW]
+    obtain ⟨l, hl⟩ := tracksByPathG_ok db p
+    rw [hl]; intro hh; cases hh
+  | dbTracks => intro hh; cases hh
+  | dbTrackById id => intro hh; cases hh
+  | dbUuid => intro hh; cases hh
+  | dbVersionName => intro hh; cases hh
+  | dbDirectory => intro hh; cases hh
+  | dbVerify => intro hh; cases hh
+
+theorem callG_dbOk (ops : FOps) (s : Schema) (db : Db) (hd : dbOk db = true) (c : Call) :
+    dbOk (callG ops s db c).1 = true := by
+  rw [callG_fst]
+  cases c with
+  | op o => exact step_dbOk ops s db hd o
+  | _ => exact hd
+
+theorem callOutcomes_defined (ops : FOps) (s : Schema) (l : List Call) :
+    ∀ db, dbOk db = true → ∀ r ∈ callOutcomes ops s db l, ∀ u, r ≠ .ub u := by
+  induction l with
+  | nil => intro db _ r hr; cases hr
+  | cons c t ih =>
+    intro db hd r hr u
+    simp only [callOutcomes, List.mem_cons] at hr
+    rcases hr with e | e
+    · rw [e]; exact callG_defined ops s db hd c u
+    · exact ih _ (callG_dbOk ops s db hd c) r e u
+
 end EngineModel.Api.GuardedTracksV2
